@@ -271,6 +271,21 @@ func genDbcSweep(g *G, k int) *gDbc {
 				st, st2 = 7, BePos(7, L)
 			}
 			m.sigs = []*gSig{mk("Lo", st, L, L), mk("Hi", st2, 64-L, L)}
+			if L >= 2 && L <= 4 {
+				// every raw value of the small signal is described (negative ones for signed signals), the wide one has no
+				// descriptions: whatever the frame, a description applies to the first signal and none to the second
+				lo, hi := int64(0), int64(1)<<uint(L)-1
+				if signed {
+					lo, hi = -(int64(1) << uint(L-1)), int64(1)<<uint(L-1)-1
+				}
+				for v := lo; v <= hi; v++ {
+					name := fmt.Sprintf("Neg%d", -v)
+					if v >= 0 {
+						name = fmt.Sprintf("Pos%d", v)
+					}
+					m.sigs[0].vds = append(m.sigs[0].vds, [2]string{fmt.Sprint(v), name})
+				}
+			}
 			if L == 32 {
 				// a float32 signal in every byte order on every run
 				m.sigs[0].flt, m.sigs[0].signed = true, false
